@@ -1,24 +1,46 @@
-"""C12 correspondence + search: task.cancel() from outside at every instant of a timeout
-program's life that is not a deadline (programs use even times, cancels come at odd instants);
-real curio timeouts on the virtual loop vs the Lean semantics, and the property oracle: a
-delivered cancellation ends the task cancelled, with all timers disarmed."""
+"""C12 correspondence + search: task.cancel() from outside at every instant of a program's life
+that is not a deadline; real curio timeouts and task groups on the virtual loop vs the Lean
+semantics, and the property oracle: a delivered cancellation ends the task cancelled, with all
+timers disarmed and every group member cancelled and awaited.
+
+Families
+  flat     timeout programs (enumerated nesting family + seeded random, normal and tie-prone
+           grids; program times even, cancel at EVERY odd instant of the lifetime)   model + oracle
+  groups   timeout programs with TaskGroup constructs of the model's language (wait=all, members
+           sleeping with reaction delays; timeouts inside group bodies, groups inside timeouts,
+           nested groups, joins under short handled timeouts); cancel one tick after every
+           instant at which anything can happen in the uncancelled run            model + oracle
+  groupx   the same with what the model does not have: wait=any/object, daemons, members with a
+           handled timeout of their own, members that are joiners of a subgroup, explicit
+           g.join()                                                                oracle only
+  session  a task inside RPCSession.send_request / send_notification / send_batch (blocked in
+           the transport write under max_send_delay, or waiting for the response under
+           sent_request_timeout) and a request handler task (under processing_timeout, with and
+           without an inner handled timeout) cancelled from outside               oracle only
+"""
+import asyncio
+import json
 import os
 from multiprocessing import Pool
 
 from harness import timeouts as T
+from harness import vloop
 from harness.base import Results, corpus_lines
 from harness.c11 import parse_prog, _forms
 
-RULE = ('case = (timeout program, external cancel instant), plus (task-group program inside '
-        'timeouts with earlier handled inner timeouts, members with slow reactions / daemons / own '
-        'handled timeouts, cancel instant) judged by the oracle only; for every program (enumerated '
-        'nesting family + seeded random programs, normal and tie-prone grids) task.cancel() is '
-        'injected at EVERY odd virtual instant of its lifetime (deadlines and wake-ups are even, '
-        'so the instant never coincides with a deadline); non-trivial = cancel delivered while '
-        'the task is alive and at least one inner timeout had already expired or >=2 blocks; '
-        'distinct = distinct (program, instant)')
+RULE = ('case = (program, external cancel instant): timeout programs (cancel at every odd instant '
+        'of the lifetime; deadlines and wake-ups are even), timeout programs with task groups of '
+        'the model language and of the wider oracle-only language (cancel one tick after every '
+        'instant at which a timer of the uncancelled run is due), and session tasks '
+        '(send_request / send_notification / send_batch / request handler) cancelled at odd '
+        'instants; non-trivial = cancel delivered while the task is alive and (an inner timeout '
+        'had already expired or >=2 blocks or a group was active); distinct = distinct '
+        '(program, instant)')
 
 _impl = None
+
+NAMES = {'T': 'TaskTimeout', 'X': 'TimeoutCancellationError', 'U': 'UncaughtTimeoutError',
+         'ok': 'normal completion', 'O': 'another exception', 'C': 'CancelledError'}
 
 
 def _init(repo):
@@ -26,270 +48,437 @@ def _init(repo):
     _impl = T.Impl(repo)
 
 
+# ---------------------------------------------------------------- oracle (from the text)
 def oracle(p, c, o):
+    """`o`: observations of one run of `p` with task.cancel() at `c` (public observables and
+    harness-owned state only)."""
     bad = []
     if o['res'] in ('Deadlock', 'Livelock'):
         return [('c12:hang', f'program never finishes: {o["res"]}')]
+    evs = o['evs']
+    groups = [e for e in evs if e['kind'] == 'group']
+    blocks = [e for e in evs if e['kind'] == 'block']
+    lost_to_deadline = False
     if o['deliv']:
         if o['res'] != 'C' or not o['task_cancelled']:
-            names = {'T': 'TaskTimeout', 'X': 'TimeoutCancellationError',
-                     'U': 'UncaughtTimeoutError', 'ok': 'normal completion', 'O': 'another exception'}
             kind = {'U': 'replaced-by-uncaught', 'T': 'replaced-by-tasktimeout',
                     'X': 'replaced-by-tce', 'ok': 'swallowed'}.get(o['res'], 'replaced')
-            bad.append((f'c12:cancel-{kind}',
+            key = f'c12:cancel-{kind}'
+            # F33: while a group's clean-up is awaiting its members' reactions, a deadline of an
+            # enclosing block passes / has passed: that block reports the timeout after the cancel
+            if groups and any((e['x'] == 1 or (e['x'] == '?' and e['r'] == 'T')) and e['t'] >= c
+                              for e in blocks):
+                key = 'c12:cancel-lost-to-deadline-during-group-cleanup'
+                lost_to_deadline = True
+            bad.append((key,
                         f'task.cancel() at {c} was delivered but the task ended with '
-                        f'{names.get(o["res"], o["res"])} instead of being cancelled'))
-    if o['dl'] != 0 or o['armed'] or o['armed_after']:
+                        f'{NAMES.get(o["res"], o["res"])} instead of being cancelled'))
+        # the clean-up a group promises: every member is cancelled and awaited
+        budget = T.total_react(p)
+        for g in groups:
+            # the instant at which the cancellation reached the task that runs this group: the
+            # external cancel for the program's own groups, for a group run by a member (a
+            # subgroup) the instant its parent group cancelled that member
+            hit = c if g['owned_by_program'] else (g['owner_member'] or {}).get('cancel_seen')
+            if hit is None or not g['entered'] <= hit <= g['t'] or lost_to_deadline:
+                # (F33: the clean-up was cut short by the deadline's cancellation - reported above)
+                continue
+            ms = g['members']
+            # the group had already begun stopping by itself (policy met, body or member failure,
+            # an enclosing timeout) when the cancel came: one of its members had been cancelled
+            # by it before (cancel requests on the harness's own member tasks)
+            # (order of the requests, not their times: both can fall into the same instant)
+            hit_seq = o.get('cancel_seq') if g['owned_by_program'] else g['owner_member']['cancel_seq']
+            stopping = any(m['cancel_seq'] is not None and m['cancel_seq'] < hit_seq for m in ms)
+            # members still running when the group was left
+            left = [i for i, m in enumerate(ms)
+                    if m['finished'] is None or m['finished'] > g['t']]
+            if left:
+                key = 'c12:cancelled-while-join-awaits-cancelled-members' if stopping \
+                    else 'c12:group-members-left'
+                bad.append((key, f'cancelled at {c} (reaching this group at {hit}): the group was '
+                                 f'left at {g["t"]} but its members {left} are still running'))
+            free = [i for i, m in enumerate(ms)
+                    if m['done'] and not m['cancelled'] and m['cancel_seen'] is None
+                    and m['finished'] is not None and m['finished'] > hit + budget]
+            if free and not stopping:
+                bad.append(('c12:group-members-not-cancelled',
+                            f'cancelled at {c}: members {free} were running then, were never '
+                            f'cancelled and ran to completion long after every reaction time '
+                            f'({budget}) had passed'))
+        if groups and o['res'] == 'C' and o['t'] > c + budget:
+            bad.append(('c12:group-cancel-not-prompt',
+                        f'cancelled at {c}, all reaction times together {budget}, but the task '
+                        f'only ended at {o["t"]}'))
+    # the clean-up the timeout blocks promise still takes place: no timer set by the task stays
+    # on the loop, nothing hits the code the task runs afterwards (its finally-clause)
+    if o['armed'] or o['armed_after']:
         bad.append(('c12:timer-left-armed',
-                    f'after cancellation: {o["dl"]} deadlines on the task, timer armed={o["armed"]}/{o["armed_after"]}'))
+                    f'after the task left all blocks {o["armed"]} timer(s) it set are still '
+                    f'scheduled ({o["armed_after"]} after its follow-on code)'))
     if o['stray']:
-        bad.append(('c12:late-cancel', f'follow-on code was hit by {o["stray"]}'))
+        bad.append(('c12:late-cancel',
+                    f'follow-on code of the task was hit by {o["stray"]} at {o.get("stray_t")}'))
     return bad
 
 
-def _work(progs):
+# ---------------------------------------------------------------- running programs
+def cancel_instants(p, base, mode):
+    if base['res'] in ('Deadlock', 'Livelock'):
+        return []
+    end = base['t']
+    if mode == 'odd':
+        return list(range(1, min(end, 120) + 2, 2))
+    # one tick after every instant at which something can happen (a timer of the run is due)
+    cs = sorted({w + 1 for w in base['whens'] if 0 <= w < end} | {1})
+    return cs[:40]
+
+
+def _work(args):
+    progs, mode, only = args
     out = []
     for p in progs:
+        if only is not None:
+            out.append([(only, _impl.run(p, cancel=only))])
+            continue
         base = _impl.run(p, follow_on=False)
-        end = base['t'] if base['res'] not in ('Deadlock', 'Livelock') else 0
-        runs = []
-        for c in range(1, min(end, 120) + 2, 2):
-            runs.append((c, _impl.run(p, cancel=c)))
-        out.append(runs)
+        out.append([(c, _impl.run(p, cancel=c)) for c in cancel_instants(p, base, mode)])
     return out
 
 
-def run_impl(ctx, progs):
+def run_impl(ctx, progs, mode, only=None):
     if len(progs) < 400:
         _init(ctx.repo)
-        return _work(progs)
+        return _work((progs, mode, only))
     nproc = min(16, os.cpu_count() or 1)
     size = max(100, len(progs) // (nproc * 4))
-    jobs = [progs[i:i + size] for i in range(0, len(progs), size)]
+    jobs = [(progs[i:i + size], mode, only) for i in range(0, len(progs), size)]
     with Pool(nproc, initializer=_init, initargs=(ctx.repo,)) as pool:
         parts = pool.map(_work, jobs)
     return [x for part in parts for x in part]
 
 
-def evaluate(ctx, progs, res, only_cancel=None):
-    allruns = run_impl(ctx, progs)
-    flat = [(p, c, o) for p, runs in zip(progs, allruns) for (c, o) in runs
-            if only_cancel is None or c == only_cancel]
-    model = ctx.model([T.model_line(p, c) for p, c, _o in flat])
+def case_of(p, c):
+    if T.any_node(p, lambda q: q[0] == 'groupx'):
+        return {'program_json': T.to_json(p), 'readable': T.show(p), 'cancel': c}
+    return {'program': T.ser_plain(p), 'forms': _forms(p), 'readable': T.show(p), 'cancel': c}
+
+
+def evaluate(ctx, progs, res, only_cancel=None, mode='odd', use_model=True, tag='flat'):
+    allruns = run_impl(ctx, progs, mode, only_cancel)
+    flat = [(p, c, o) for p, runs in zip(progs, allruns) for (c, o) in runs]
+    model = ctx.model([T.model_line(p, c) for p, c, _o in flat]) if use_model else None
     for i, (p, c, o) in enumerate(flat):
         got = T.fmt_obs(o)
-        case = {'program': T.ser_plain(p), 'forms': _forms(p), 'readable': T.show(p), 'cancel': c}
+        case = case_of(p, c)
         for key, why in oracle(p, c, o):
             res.violation(key, case, why, impl=got)
         if model is not None:
             want = T.align_model(model[i], o)
             if want != got:
                 res.disagreement(case, got, want)
-        res.count('delivered', o.get('deliv', 0))
+        res.count(f'{tag}_runs')
+        res.count(f'{tag}_delivered', o.get('deliv', 0))
         res.count('outcome_' + o['res'])
-        expired_before = any(e[2] == 1 for e in o.get('evs', []))
+        evs = o.get('evs', [])
+        expired_before = any(e.get('x') == 1 for e in evs)
+        in_group = any(e['kind'] == 'group' and e['entered'] <= c <= e['t'] for e in evs)
         res.count('delivered_after_inner_expiry', int(bool(o.get('deliv')) and expired_before))
-        if o.get('deliv') and (expired_before or T.n_blocks(p) >= 2):
-            res.nontrivial((T.ser_plain(p) + _forms(p), c))
+        res.count('delivered_inside_a_group', int(bool(o.get('deliv')) and in_group))
+        if o.get('deliv') and (expired_before or T.n_blocks(p) >= 2 or in_group):
+            res.nontrivial((str(case.get('program') or case.get('program_json')),
+                            case.get('forms'), c))
         if o.get('deliv') and expired_before:
             res.sample({'program': T.show(p), 'cancel_at': c, 'impl': got})
     res['evaluations'] += len(flat)
 
 
-# ---------------------------------------------------------------- task groups inside timeouts
-def gen_group_case(r):
-    """(outer far timeout?, handled inner timeout first?, members [(dur, react, daemon,
-    had_timeout)], body duration, policy)"""
-    members = [(r.choice([4, 8, 20, 60]), r.choice([0, 0, 2, 6]), r.random() < 0.3,
-                r.random() < 0.4) for _ in range(r.randint(1, 3))]
-    return {'outer': r.choice([None, 'timeout', 'ignore']), 'prelude': r.random() < 0.6,
-            'members': members, 'body': r.choice([0, 2, 6, 30]),
-            'policy': r.choice(['all', 'any', 'object'])}
+# ---------------------------------------------------------------- the wider group language
+def gen_groupx(r):
+    """one program around task groups with everything the model's language lacks; same time
+    grid as T.gen_group (unique member offsets: no member ever finishes at the instant of a
+    deadline or of another member)"""
+    GU = T.GU
+    ctr = [0]
+
+    def member(sub_ok=True):
+        j = ctr[0]
+        ctr[0] += 1
+        react = r.choice([0, 0, 1, 3])
+        sub = None
+        if sub_ok and ctr[0] < 5 and r.random() < 0.25:
+            # the member is itself the joiner of a subgroup
+            sub = group(r.choice(['all', 'any', 'object']), 'cm', r.randint(1, 2), False,
+                        ('sleep', GU * r.choice([1, 2, 6])))
+        return (GU * r.choice([1, 2, 5, 15]) + 2 ** (2 * j + 1),
+                GU * react + 2 ** (2 * j + 2) if react else 0,
+                r.random() < 0.3, r.random() < 0.4, sub)
+
+    def group(policy, mode, n, sub_ok, body):
+        ms = tuple(member(sub_ok) for _ in range(n) if ctr[0] < 6)
+        return ('groupx', policy, mode, ms, body)
+
+    policy = r.choice(['all', 'any', 'object'])
+    shape = r.choice(['cm', 'cm', 'timeout-in-body', 'nested', 'join-under-timeout', 'subgroup'])
+    body = ('sleep', GU * r.choice([1, 2, 8])) if r.random() < 0.8 else ('skip',)
+    if shape == 'timeout-in-body':
+        inner = ('try', ['T'], ('block', False, True, GU * r.choice([1, 2]),
+                                ('sleep', GU * r.choice([1, 4])), 0), ('skip',))
+        body = ('seq', ('sleep', GU), ('seq', inner, ('sleep', GU * r.choice([1, 3]))))
+    if shape == 'nested':
+        body = ('seq', ('sleep', GU), group(r.choice(['all', 'any']), 'cm', r.randint(1, 2), False,
+                                            ('sleep', GU * r.choice([1, 3]))))
+    if shape == 'join-under-timeout':
+        # an explicit join() under a short timeout that expires and is handled, then more work
+        g = group(policy, 'join', r.randint(1, 3), False, ('skip',))
+        core = ('seq', ('try', ['T'], ('block', False, True, GU * r.choice([1, 3, 6]), g, 0),
+                        ('skip',)), ('sleep', GU * r.choice([2, 4])))
+    else:
+        core = group(policy, 'cm', r.randint(1, 3), shape == 'subgroup', body)
+    if r.random() < 0.6:
+        # an inner timeout that expires and is handled before the group is entered
+        core = ('seq', ('try', ['T'], ('block', False, True, GU, ('sleep', 50 * GU), 0), ('skip',)),
+                core)
+    outer = r.choice([None, 'timeout', 'ignore', 'near'])
+    if outer == 'near':
+        core = ('block', r.random() < 0.5, True, GU * r.choice([2, 4, 7]), core, 0)
+    elif outer:
+        core = ('block', outer == 'ignore', True, 5000 * GU, core, 0)
+    return core
 
 
-def run_group_case(impl, case, cancel):
-    """cancel: odd virtual instant of task.cancel(), or None"""
-    import asyncio
-    from harness import vloop
-    c = impl.curio
-    WAIT = {'all': all, 'any': any, 'object': object}
+# ---------------------------------------------------------------- session tasks
+SESSION_KINDS = ['send_request', 'send_notification', 'send_batch', 'send_batch_notifications',
+                 'handler', 'handler_after_inner_timeout']
+
+
+def gen_session_case(r):
+    return {'kind': r.choice(SESSION_KINDS),
+            # when the transport accepts the write (None: at once; -1: never)
+            'gate': r.choice([None, None, 6, 14, -1]),
+            # when the peer's response arrives (-1: never)
+            'respond': r.choice([-1, 8, 16]),
+            'work': r.choice([4, 12])}
+
+
+def run_session_case(repo, case, cancel):
+    from tools.facts.common import fresh_import
+    aiorpcx = fresh_import(repo, 'aiorpcx')
+    curio = fresh_import(repo, 'aiorpcx.curio')
     obs = {}
 
-    async def member(dur, react, had_timeout):
-        if had_timeout:
-            async with c.ignore_after(0):
-                await c.sleep(2)
-        try:
-            await c.sleep(dur)
-        except c.CancelledError:
-            if react:
-                await c.sleep(react)
-            raise
-        return dur
+    class Transport:
+        """what a session needs of its transport; write() honours a send gate the way the real
+        transports do when asyncio has paused writing (send buffer full)"""
+        kind = aiorpcx.SessionKind.CLIENT
 
-    async def victim(tasks):
-        async def inner():
-            if case['prelude']:
-                # an inner timeout that expires and is handled before the group is entered
-                try:
-                    async with c.timeout_after(2):
-                        await c.sleep(100)
-                except c.TaskTimeout:
-                    pass
-            async with c.TaskGroup(wait=WAIT[case['policy']]) as g:
-                for (dur, react, daemon, had) in case['members']:
-                    tasks.append(await g.spawn(member(dur, react, had), daemon=daemon))
-                await c.sleep(case['body'])
-        if case['outer'] == 'timeout':
-            async with c.timeout_after(5000):
-                await inner()
-        elif case['outer'] == 'ignore':
-            async with c.ignore_after(5000):
-                await inner()
-        else:
-            await inner()
+        def __init__(self):
+            self.can_send = asyncio.Event()
+            self.written = []
+            self.aborted = False
+
+        async def write(self, message):
+            await self.can_send.wait()
+            self.written.append(message)
+
+        async def close(self, force_after=None):
+            pass
+
+        async def abort(self):
+            self.aborted = True
+
+        def is_closing(self):
+            return self.aborted
+
+        def proxy(self):
+            return None
+
+        def remote_address(self):
+            return None
 
     async def top():
         loop = asyncio.get_event_loop()
-        tasks = []
-        task = asyncio.ensure_future(victim(tasks))
+        tr = Transport()
+        handler_task = []
+
+        class Session(aiorpcx.RPCSession):
+            async def handle_request(self, request):
+                handler_task.append(asyncio.current_task())
+                if case['kind'] == 'handler_after_inner_timeout':
+                    try:
+                        async with curio.timeout_after(2):
+                            await curio.sleep(100)
+                    except curio.TaskTimeout:
+                        pass
+                await curio.sleep(case['work'])
+                return 'done'
+
+        session = Session(tr)
+        inbox = asyncio.Queue()
+        pump = loop.create_task(session.process_messages(inbox.get))
+        if case['gate'] is None:
+            tr.can_send.set()
+        elif case['gate'] >= 0:
+            loop.call_at(case['gate'], tr.can_send.set)
+        kind = case['kind']
+        if kind.startswith('handler'):
+            tr.kind = aiorpcx.SessionKind.SERVER
+            inbox.put_nowait(b'{"jsonrpc":"2.0","method":"work","params":[],"id":7}')
+            await asyncio.sleep(0)
+            await asyncio.sleep(0)
+            for _ in range(10):
+                if handler_task:
+                    break
+                await asyncio.sleep(0)
+            task = handler_task[0] if handler_task else None
+        else:
+            async def batch(notifications_only):
+                async with session.send_batch() as b:
+                    if not notifications_only:
+                        b.add_request('ping', [1])
+                    b.add_notification('note', [2])
+                return 'sent'
+            coro = {'send_request': lambda: session.send_request('ping', [1]),
+                    'send_notification': lambda: session.send_notification('note', [1]),
+                    'send_batch': lambda: batch(False),
+                    'send_batch_notifications': lambda: batch(True)}[kind]()
+            task = loop.create_task(coro)
+            if case['respond'] >= 0:
+                if kind == 'send_batch':
+                    resp = b'[{"jsonrpc":"2.0","result":5,"id":0}]'
+                else:
+                    resp = b'{"jsonrpc":"2.0","result":5,"id":0}'
+                loop.call_at(case['respond'], inbox.put_nowait, resp)
+        if task is None:
+            obs['res'] = 'no-task'
+            pump.cancel()
+            return
         delivered = []
         if cancel is not None:
             def do_cancel():
                 delivered.append(not task.done())
-                # where is the task suspended right now? (classification of findings only)
-                names, co = [], task.get_coro()
-                while co is not None and hasattr(co, 'cr_code'):
-                    names.append(co.cr_code.co_name)
-                    co = co.cr_await
-                obs['suspended_in'] = names
-                obs['running_at_cancel'] = [not t.done() for t in tasks]
                 task.cancel()
             loop.call_at(cancel, do_cancel)
         try:
-            await task
-            r = 'ok'
-        except BaseException as e:
-            r = impl.cls(e)
-        obs['res'] = r
+            await asyncio.wait_for(asyncio.shield(asyncio.wait([task])), 200)
+        except asyncio.TimeoutError:
+            obs['res'] = 'still-running'
+            pump.cancel()
+            return
         obs['t'] = int(loop.time())
         obs['deliv'] = int(bool(delivered and delivered[0]))
         obs['task_cancelled'] = task.cancelled()
-        obs['members_done'] = [t.done() for t in tasks]
-        obs['members_cancelled'] = [t.done() and t.cancelled() for t in tasks]
-        obs['dl'] = len(getattr(task, '_deadlines', []))
-        obs['armed'] = int(any(not h.cancelled() and 'timeout_task' in repr(h)
-                               for h in loop._scheduled))
-        for t in tasks:
-            t.cancel()
+        if task.cancelled():
+            obs['res'] = 'C'
+        elif task.exception() is not None:
+            obs['res'] = type(task.exception()).__name__
+        else:
+            obs['res'] = 'ok'
+        # tear-down: the task running process_messages() (inside the session's own TaskGroup) is
+        # cancelled from outside as well and must end
+        obs['pump'] = 'pending'
+        pump.cancel()
+        try:
+            await pump
+        except BaseException:       # noqa
+            pass
+        obs['pump'] = 'cancelled' if pump.cancelled() else 'ended'
     try:
         vloop.run(top())
-    except vloop.Deadlock:
-        obs['res'] = 'Deadlock'
-    except vloop.Livelock:
-        obs['res'] = 'Livelock'
+    except (vloop.Deadlock, vloop.Livelock) as e:
+        if obs.get('pump') == 'pending':
+            obs['pump'] = type(e).__name__
+        else:
+            obs['res'] = type(e).__name__
     return obs
 
 
-def group_oracle(case, cancel, o):
-    bad = []
-    if o['res'] in ('Deadlock', 'Livelock'):
-        return [('c12:group-hang', f'cancelled task inside a TaskGroup never finishes: {o["res"]}')]
-    if o['deliv']:
-        if o['res'] != 'C' or not o['task_cancelled']:
-            bad.append(('c12:group-cancel-replaced',
-                        f'task.cancel() at {cancel} while in a TaskGroup (inside timeouts) ended '
-                        f'with {o["res"]} instead of being cancelled'))
-        if not all(o['members_done']):
-            key = 'c12:group-members-left'
-            if '_cancel_tasks' in o.get('suspended_in', []):
-                # the group had already started cancelling (member failure / policy stop) and
-                # was awaiting those members when the external cancel came: F11
-                key = 'c12:cancelled-while-join-awaits-cancelled-members'
-            bad.append((key,
-                        f'cancelled at {cancel}: the task ended but group members are still '
-                        f'running {o["members_done"]}'))
-        # the clean-up a group promises: every member still running when the cancellation
-        # arrived is cancelled (not left to run to completion).  The group cancels in two
-        # sweeps: non-daemonic members first (awaited), daemons afterwards - a daemon may
-        # therefore legitimately finish by itself while the first sweep is being awaited.
-        rac = o.get('running_at_cancel', [])
-        start = 2 if case['prelude'] else 0
-        nd_react = max([m[1] for m, run in zip(case['members'], rac) if run and not m[2]],
-                       default=0)
-        dm_react = max([m[1] for m, run in zip(case['members'], rac) if run and m[2]], default=0)
-        in_sweep = '_cancel_tasks' in o.get('suspended_in', [])
-        not_cancelled = []
-        for i, (m, run, canc, dn) in enumerate(zip(case['members'], rac, o['members_cancelled'],
-                                                   o['members_done'])):
-            if run and dn and not canc:
-                if m[2] and start + m[0] <= cancel + nd_react:
-                    continue
-                not_cancelled.append(i)
-        if not_cancelled and not in_sweep:
-            bad.append(('c12:group-members-not-cancelled',
-                        f'cancelled at {cancel}: members {not_cancelled} were running then but '
-                        f'were never cancelled (they ran to completion)'))
-        # ... and the task ends as soon as the slowest reactions allow
-        if o['res'] == 'C' and o['t'] > cancel + nd_react + dm_react and not in_sweep:
-            bad.append(('c12:group-cancel-not-prompt',
-                        f'cancelled at {cancel}, slowest reactions {nd_react}+{dm_react}, but '
-                        f'the task only ended at {o["t"]}'))
-    if o['dl'] or o['armed']:
-        bad.append(('c12:timer-left-armed', f'deadlines {o["dl"]} armed {o["armed"]} after the end'))
-    return bad
+def session_oracle(case, cancel, o):
+    if o.get('pump') in ('Deadlock', 'Livelock'):
+        return [('c12:session-pump-hang',
+                 f'the task running session.process_messages() (inside the session\'s TaskGroup) '
+                 f'was cancelled from outside and never finishes: {o["pump"]}')]
+    if o['res'] in ('Deadlock', 'Livelock', 'still-running'):
+        return [('c12:session-hang', f'{case["kind"]}: the session task never finishes: {o["res"]}')]
+    if o.get('deliv') and (o['res'] != 'C' or not o['task_cancelled']):
+        return [('c12:session-cancel-replaced',
+                 f'{case["kind"]}: task.cancel() at {cancel} was delivered (the task was inside the '
+                 f'session\'s timeout blocks) but the task ended with {o["res"]} instead of '
+                 f'being cancelled')]
+    return []
 
 
-def _group_work(args):
+def _session_work(args):
     repo, cases = args
-    impl = T.Impl(repo)
     out = []
     for case in cases:
-        base = run_group_case(impl, case, None)
-        end = base.get('t', 0) if base['res'] not in ('Deadlock', 'Livelock') else 0
+        base = run_session_case(repo, case, None)
+        end = base.get('t', 40) if base.get('res') not in ('Deadlock', 'Livelock') else 40
         runs = [(None, base)]
-        for cc in range(1, min(end, 80) + 2, 2):
-            runs.append((cc, run_group_case(impl, case, cc)))
+        for cc in range(1, min(end, 40) + 2, 2):
+            runs.append((cc, run_session_case(repo, case, cc)))
         out.append(runs)
     return out
 
 
-def evaluate_groups(ctx, cases, res):
-    if len(cases) < 200:
-        allruns = _group_work((ctx.repo, cases))
+def evaluate_sessions(ctx, cases, res):
+    if len(cases) < 60:
+        allruns = _session_work((ctx.repo, cases))
     else:
         nproc = min(16, os.cpu_count() or 1)
-        size = max(50, len(cases) // (nproc * 3))
+        size = max(10, len(cases) // (nproc * 2))
         jobs = [(ctx.repo, cases[i:i + size]) for i in range(0, len(cases), size)]
         with Pool(nproc) as pool:
-            allruns = [x for part in pool.map(_group_work, jobs) for x in part]
+            allruns = [x for part in pool.map(_session_work, jobs) for x in part]
     n = 0
     for case, runs in zip(cases, allruns):
         for cc, o in runs:
             n += 1
-            cs = {'group_case': case, 'cancel': cc}
-            for key, why in group_oracle(case, cc, o):
+            cs = {'session_case': case, 'cancel': cc}
+            for key, why in session_oracle(case, cc, o):
                 res.violation(key, cs, why, impl=str(o))
-            res.count('group_runs')
-            res.count('group_cancel_delivered', o.get('deliv', 0))
+            res.count('session_runs')
+            res.count('session_cancel_delivered', o.get('deliv', 0))
+            res.count('session_outcome_' + str(o.get('res')))
             if o.get('deliv'):
-                res.nontrivial(('group', str(case), cc))
+                res.nontrivial(('session', json.dumps(case, sort_keys=True), cc))
     res['evaluations'] += n
 
 
+# ---------------------------------------------------------------- entry points
 def run(ctx):
     res = Results()
     rng = ctx.rng
-    ng = (20000 if ctx.tier == 'thorough' else 4000) if ctx.deep else 500
-    evaluate_groups(ctx, [gen_group_case(rng) for _ in range(ng)], res)
-    res['scopes']['group_programs'] = ng
     corp = []
     for ln in corpus_lines(ctx.verif, 'C12'):
         c, rest = ln.split(' ', 1)
         corp.append((int(c), parse_prog(*(rest.split('|') + [''])[:2])))
     for c, p in corp:
-        evaluate(ctx, [p], res, only_cancel=c)
+        evaluate(ctx, [p], res, only_cancel=c, mode='events' if T.has_group(p) else 'odd',
+                 tag='corpus')
     res['scopes']['corpus'] = len(corp)
+    # session tasks
+    kinds = len(SESSION_KINDS)
+    ns = (1500 if ctx.tier == "thorough" else 200) if ctx.deep else 40
+    scases = [gen_session_case(rng) for _ in range(ns)]
+    for i, sc in enumerate(scases[:kinds]):
+        sc['kind'] = SESSION_KINDS[i]           # every kind at least once
+    evaluate_sessions(ctx, scases, res)
+    res['scopes']['session_cases'] = ns
+    # task groups: model language, then the wider one
+    ng = (40000 if ctx.tier == "thorough" else 3000) if ctx.deep else 400
+    gprogs = []
+    while len(gprogs) < ng:
+        p = T.gen_group(rng, 4)
+        if T.has_group(p):
+            gprogs.append(p)
+    evaluate(ctx, gprogs, res, mode='events', tag='groups')
+    res['scopes']['group_programs'] = ng
+    nx = (40000 if ctx.tier == "thorough" else 3000) if ctx.deep else 400
+    evaluate(ctx, [gen_groupx(rng) for _ in range(nx)], res, mode='events', use_model=False,
+             tag='groupx')
+    res['scopes']['wider_group_programs'] = nx
+    # flat timeout programs
     shapes = T.enum_shapes()
     if not ctx.deep:
         shapes = [s for i, s in enumerate(shapes) if (i + ctx.seed) % 6 == 0]
@@ -306,13 +495,17 @@ def replay(ctx, case):
     if isinstance(case.get('case'), dict):
         case = case['case']
     res = Results()
-    if 'group_case' in case:
-        impl = T.Impl(ctx.repo)
-        o = run_group_case(impl, case['group_case'], case.get('cancel'))
-        for key, why in group_oracle(case['group_case'], case.get('cancel'), o):
+    if 'session_case' in case:
+        o = run_session_case(ctx.repo, case['session_case'], case.get('cancel'))
+        for key, why in session_oracle(case['session_case'], case.get('cancel'), o):
             res.violation(key, case, why, impl=str(o))
         res['evaluations'] += 1
-        return res.finish('replay of one recorded group case')
-    evaluate(ctx, [parse_prog(case['program'], case.get('forms', ''))], res,
-             only_cancel=case.get('cancel'))
+        return res.finish('replay of one recorded session case')
+    if 'program_json' in case:
+        p = T.from_json(case['program_json'])
+        evaluate(ctx, [p], res, only_cancel=case.get('cancel'), mode='events', use_model=False)
+        return res.finish('replay of one recorded case')
+    p = parse_prog(case['program'], case.get('forms', ''))
+    evaluate(ctx, [p], res, only_cancel=case.get('cancel'),
+             mode='events' if T.has_group(p) else 'odd')
     return res.finish('replay of one recorded case')
